@@ -94,6 +94,7 @@ def ev(src, opts, rank):
 
 def main(tier, seed):
     run = Run("C07", tier, seed)
+    run.regressions(replay)
     exh = engine.run_universes(run, EVALUATOR, PLAN, tier, seed, first=FIRST, chunk=60)
     return run.finish(RULE, assumptions=["documents that do not parse are C01's (skipped)", "columns on lines with tabs are accepted up to the tab-expanded width"], exhaustive=False)
 
